@@ -37,7 +37,8 @@ PROFILES = {
     'C09': P(force=('forever',), never=0.5, windows=0.4, zero_jobs=0.5),
     'C10': P(force=('nesting',), critical=0.7, failures=0.6, timeouts=0.3),
     'C11': P(force=('nesting',), slow_cleanup=0.6, slow_handlers=0.6,
-             timeouts=0.5, critical=0.5, forever=0.5, never=0.4, stalls=0.1),
+             timeouts=0.5, critical=0.5, forever=0.5, never=0.4, stalls=0.1,
+             wait_for_entry=0.15),
     'C12': P(windows=0.5, zero_jobs=0.5, failures=0.4),
     'C13': P(force=('slow_handlers',), nesting=0.6, sd_none=0.4,
              never_handler=0.3, timeouts=0.5, critical=0.5, slow_cleanup=0.3),
@@ -93,7 +94,7 @@ def gen_cases(prop, seed):
         return [make_case(top, knobs, {"twin": "permute",
                                        "perm_seed": rng.randrange(1 << 30)})]
     top, feat = gen.gen_tree(rng, PROFILES[prop])
-    knobs = gen.gen_knobs(rng, feat)
+    knobs = gen.maybe_wait_for(gen.gen_knobs(rng, feat), rng, PROFILES[prop])
     if prop == 'C06':
         cands = twins.c06_candidates(top)
         if not cands:
@@ -227,7 +228,9 @@ def _make_flattenable(top):
             node['handler'] = []
             if S.script_time(node.get('cleanup')):
                 node['cleanup'] = [["yield", 2]]
-            if node['outcome'] in ('never_fut', 'never_tick'):
+            if node['outcome'] in ('never_fut', 'never_tick', 'self_cancel'):
+                # (a self-cancelling job must have no successor: flattening
+                # would give it the successors of its scheduler)
                 node['outcome'] = 'ret'
 
 
@@ -500,7 +503,9 @@ def evaluate_case(prop, case):
     # they belong to
     if prop in refmodel.MODEL_PROPS and not run.knobs['stall_den'] \
             and run.outcome in ('ret', 'exc'):
-        pred = refmodel.predict(case['spec'])
+        pred = refmodel.predict(
+            case['spec'], run.knobs['entry_timeout']
+            if run.knobs.get('entry') == 'wait_for' else refmodel.INF)
         if pred is None:
             stats['model_undecided_tie_or_window'] = 1
         else:
